@@ -1,6 +1,6 @@
 From Coq Require Import Extraction ExtrOcamlBasic.
 From TK Require Import Mat_Qc Equiv_Model Equiv_Spec Equiv_SpecExec.
-Extraction "c12_model.ml" mds_matrix_q kpca_matrix_q isomap_matrix_q lin_kernel_q sq_dist_q mean_q cov_q
+Extraction "c12_model.ml" mds_matrix_q kpca_matrix_q isomap_matrix_q isomap_pre_f23_q lin_kernel_q sq_dist_q mean_q cov_q
   cov_pre_f8_q project_q center_q perm_rows_q rotate_q translate_q scale_q
   rel_perm_tab_b rel_perm_rows_b rel_eq_tab_b rel_scale_tab_b rel_conj_tab_b rel_affine_vec_b
   rel_scale_vec_b orth_b rel_same_dist_b perm_list_b qz qfrac laplacian_q klle_M_q diffusion_K1_q diffusion_q.
